@@ -29,6 +29,8 @@ def op(o):
     k = o["k"]
     if k == "block":
         f = o.get("fault")
+        if f and f.get("cancel"):
+            raise ValueError("cancel ops are expanded by ops_and_codes")
         fs = "None" if not f else "(Some (%s, %d%%nat))" % (TABLES[f["table"]], f["k"])
         return "OBlock (mkBlock %s %s) %s" % (cN(o["num"]), clist([ev(e) for e in o.get("events") or []]), fs)
     if k == "reorg":
@@ -69,12 +71,40 @@ def codes(rs):
     return clist([cN(CODES.get(r, 9)) for r in rs or []])
 
 
+def ops_and_codes(ops, res):
+    """Op list and result codes as Coq terms. A block op whose context was cancelled mid-transaction (fault.cancel) is, for the
+    model, what was OBSERVED: either the block was committed before the cancellation took effect (result ok: OBlock without
+    fault) or the transaction was rolled back (any error: OBlock with a fault at its first statement, same database as for
+    any other failing statement), followed by the restart the harness performs (the rollback callbacks that the real code
+    skips in this case do not matter to a new processor object)."""
+    res = list(res or [])
+    res += ["ok"] * (len(ops) - len(res)) if len(res) < len(ops) else []
+    terms, cs = [], []
+    for o, r in zip(ops, res):
+        f = o.get("fault") if o["k"] == "block" else None
+        if f and f.get("cancel"):
+            blk = "(mkBlock %s %s)" % (cN(o["num"]), clist([ev(e) for e in o.get("events") or []]))
+            if r == "ok":
+                terms.append("OBlock %s None" % blk)
+            else:
+                terms.append("OBlock %s (Some (TBlock, 0%%nat))" % blk)
+            cs.append(r)
+            terms.append("ORestart")
+            cs.append("ok")
+        else:
+            terms.append(op(o))
+            cs.append(r)
+    return clist(terms), codes(cs)
+
+
 def coq_case(o):
     i = o["in"]
+    ops_t, res_t = ops_and_codes(i["ops"], o.get("res"))
+    tops_t, tres_t = ops_and_codes(i.get("twin_ops") or [], o.get("twin_res"))
     return "mkCase %s %s %s %s %s %s %s" % (
-        clist([op(x) for x in i["ops"]]), codes(o.get("res")), clist([snap(s) for s in o.get("snaps") or []]),
+        ops_t, res_t, clist([snap(s) for s in o.get("snaps") or []]),
         clist([cNhex(x) for x in o.get("leaves") or []]),
-        clist([op(x) for x in i.get("twin_ops") or []]), codes(o.get("twin_res")),
+        tops_t, tres_t,
         clist([snap(s) for s in o.get("twin_snaps") or []]))
 
 
@@ -91,6 +121,8 @@ def distribution(outs):
                     d["bridge_events" if e["t"] == "bridge" else "other_events"] += 1
                 if x.get("fault"):
                     d["faults"] += 1
+                    if x["fault"].get("cancel"):
+                        d["context_cancellations_mid_block"] = d.get("context_cancellations_mid_block", 0) + 1
             elif x["k"] == "reorg":
                 d["reorgs"] += 1
             elif x["k"] == "restart":
